@@ -360,6 +360,14 @@ t("twin-w3c-brackets-not-isdisjoint", "C20", W3C, 'if "[" in curie or "]" in cur
 b("w3c-prefix-casefold", "C20", W3C, "return bool(NCNAME_RE.fullmatch(prefix))", "return bool(NCNAME_RE.fullmatch(prefix.casefold()))", "C20-D1")
 
 
+def ts(id, props, seed, file, old, new, note=""):
+    """A seeded "refactoring with a slip" with the slip repaired: the refactoring itself must stay silent."""
+    V.append(Variant(id, tuple(props.split()), "benign", file, old, new, (), note, "seeded/" + seed))
+
+
+# ------------------------------------------------------------------------------------- round-5 seeds with the slip repaired (benign twins)
+ts("fixed-jsonld-helper-comp", "C13 C14 C04", "C14-m14", API, "            and (uri_prefix := _get_jsonld_uri_prefix(value))\n", "            and (uri_prefix := _get_jsonld_uri_prefix(value)) is not None\n", "dict comprehension + helper with the None-test restored")
+
 # ------------------------------------------------------------------------------------- slips made while refactoring (round 4)
 bs("slip-lookup-helper-order", "C12", "C12-r16", REC, "for s in chain((preferred,), synonyms):", "for s in chain(synonyms, (preferred,)):", "C12-D5", "shared lookup helper consults synonyms first")
 bs("slip-groupby-sort-key", "C13", "C13-r16", API, "pairs = sorted((uri_prefix, curie_prefix) for curie_prefix, uri_prefix in prefix_map.items())", "pairs = sorted(((uri_prefix, curie_prefix) for curie_prefix, uri_prefix in prefix_map.items()), key=itemgetter(0))", "C13-D4", "pairs sorted by URI prefix only")
@@ -537,7 +545,7 @@ def _run_one(args):
     if v.base:
         import pathlib
 
-        pf = pathlib.Path(__file__).resolve().parent.parent / "refactors" / v.base / "patch.diff"
+        pf = pathlib.Path(__file__).resolve().parent.parent / (v.base if "/" in v.base else "refactors/" + v.base) / "patch.diff"
         files = apply_unified_diff(files, pf.read_text()) if pf.exists() else None
         if files is None:
             return {"id": v.id, "kind": v.kind, "props": list(v.props), "status": "not-applicable", "detail": f"base refactoring {v.base} does not fit the current tree"}
